@@ -200,6 +200,10 @@ FLAGS = [
      r"RequestType::LaunchWorker\(_\) => \{\s*client\.finish_failure\(",
      r"RequestType::LaunchWorker\(_\) => \{\} // not yet implemented",
      "request_type None / LaunchWorker / ReturnListenSockets are answered with a failure (false: never answered, F21)"),
+    ("hubReloadBadPathPanics", "bin/src/command/requests.rs",
+     r"panic!\(\"cannot load configuration from",
+     r"could not load configuration from '\{path\}'",
+     "ReloadConfiguration of a path that cannot be loaded panics the main process (false: the client is answered a failure and the task is cancelled)"),
     # --- H2Wire (C15) ---
     ("h2FirstSettingsChecksLen", "lib/src/protocol/mux/h2.rs",
      r"\(H2State::ClientSettings, Position::Server\) => \{\s*let i = kawa\.storage\.data\(\);(?:\s*//[^\n]*)*\s*if i\.len\(\) % parser::SETTINGS_ENTRY_SIZE as usize != 0 \{\s*return self\.goaway\(H2Error::FrameSizeError\);",
